@@ -22,21 +22,16 @@ func run(t *testing.T, sc sim.Scenario) engine.Verdict {
 	if h.BubbleErr != "" {
 		probs = append(probs, oracle.Problem{Sig: "C09/goroutines-left-or-deadlock", Msg: h.BubbleErr})
 	}
-	// Replies the peer sends must provoke no message: judged by the server model
-	// (a reply-shaped member of a push-enabled server expects no reply).
+	// Replies the peer sends must provoke no message: every response object the
+	// server emits must answer a call the peer actually made (counted per id text).
 	stopped := false
 	for _, s := range sc.Steps {
 		if s.Op == "stop" || s.Op == "peerclose" {
 			stopped = true
 		}
 	}
-	if !stopped {
-		for _, p := range oracle.ServerCheck(sc, h, oracle.ServerOptions{Limit: sc.Cfg.Concurrency}) {
-			if strings.HasPrefix(p.Sig, "C01/stray-output") || strings.HasPrefix(p.Sig, "C01/reply-mismatch") || strings.HasPrefix(p.Sig, "C01/several") {
-				p.Sig = "C09/server-answers-unsolicited-reply"
-				probs = append(probs, p)
-			}
-		}
+	if sc.Cfg.AllowPush {
+		probs = append(probs, oracle.UnsolicitedResponses(h)...)
 	}
 	for _, p := range probs {
 		if strings.HasPrefix(p.Sig, "C09/") {
